@@ -367,3 +367,140 @@ Proof.
   - exists n. intros m M. rewrite PG, run_app. apply A; auto.
   - intros m. rewrite PG, run_app. rewrite B. reflexivity.
 Qed.
+
+(* ------------------------------------------------------------------ which error the evaluation returns *)
+(* programs without the constructs that replace the context's error by a copy of its text *)
+Fixpoint idclean (s : shape) : bool :=
+  match s with
+  | Block BWait => false
+  | Callback cb _ b => (match cb with CbTry => true | _ => false end) && idclean b
+  | Seq a b => idclean a && idclean b
+  | Forever b | Spawn b | Deep _ b => idclean b
+  | _ => true
+  end.
+Definition err_ctx (e : ecls) : bool := match e with ECtx => true | _ => false end.
+Definition frame_clean (f : frame) : bool :=
+  match f with
+  | FSeq r => idclean r
+  | FLoop b => idclean b
+  | FCall => true
+  | FCb cb _ b e => (match cb with CbTry => true | _ => false end) && idclean b &&
+                    match e with None => true | Some x => err_ctx x end
+  end.
+Definition thread_clean (t : thread) : bool :=
+  match tcur t with Some s => idclean s | None => true end &&
+  forallb frame_clean (tstack t) &&
+  match tmode t with Unwind e => err_ctx e | Normal => true end &&
+  match tdone t with Some (TErr e) => err_ctx e | _ => true end.
+
+Lemma step_clean shares c t :
+  (flag c = true -> cancelled c = true) -> thread_clean t = true ->
+  thread_clean (o_thread (step_thread shares c t)) = true /\
+  (forall n, o_spawn (step_thread shares c t) = Some n -> thread_clean n = true).
+Proof.
+  intros FC CL. unfold thread_clean in CL.
+  repeat (apply andb_true_iff in CL; destruct CL as [CL ?]).
+  assert (HE : polled c t = true -> halt_err c = ECtx).
+  { unfold polled, halt_err. intros X. apply andb_true_iff in X. destruct X as [_ X]. rewrite (FC X). reflexivity. }
+  unfold step_thread, wake. break_match; subst; unfold thread_clean;
+    cbn [o_thread o_spawn upd unwind fin_piece pop_to finish push set_cur park
+         tdone tmode tcur tstack tparked forallb frame_clean idclean err_ctx] in *;
+    try (rewrite HE by auto); cbn [err_ctx];
+    repeat match goal with
+           | H : _ && _ = true |- _ => apply andb_true_iff in H; destruct H
+           | H : tstack t = _ |- _ => rewrite H in *; cbn [forallb frame_clean] in *
+           end;
+    try discriminate;
+    (split; [|intros nn X; try discriminate; inv X; cbn; rewrite ?andb_true_r; auto]);
+    repeat (apply andb_true_iff; split); auto; try reflexivity; try congruence;
+    try (repeat match goal with H : ?x = _ |- context [?x] => rewrite H end; auto; fail);
+    try (cbn in *; congruence);
+    try (match goal with e : ecls |- _ => destruct e; cbn in *; congruence end);
+    try (match goal with k : cbk |- _ => destruct k; cbn in *; congruence end).
+Qed.
+
+Definition state_clean (c : cstate) : Prop :=
+  (flag c = true -> cancelled c = true) /\ forallb thread_clean (threads c) = true.
+
+Lemma forallb_set_nth {A} (p : A -> bool) n x l : forallb p l = true -> p x = true -> forallb p (set_nth n x l) = true.
+Proof.
+  revert n. induction l as [|y l IH]; intros n F Px; [destruct n; cbn; auto|].
+  cbn in F. apply andb_true_iff in F. destruct F. destruct n; cbn; apply andb_true_iff; auto.
+Qed.
+
+Lemma act_clean shares a c : state_clean c -> state_clean (act shares a c).
+Proof.
+  intros [A B]. destruct a as [| |i]; cbn.
+  - split; cbn; auto.
+  - destruct (cancelled c) eqn:E; [split; cbn; auto|split; auto]. intros X. apply A in X. discriminate.
+  - destruct (nth_error (threads c) i) as [t|] eqn:N; [|split; auto].
+    destruct (enabled c t); [|split; auto].
+    split; cbn; auto.
+    assert (Ht : thread_clean t = true).
+    { rewrite forallb_forall in B. apply B. eapply nth_error_In; eauto. }
+    destruct (step_clean shares c t A Ht) as [S1 S2].
+    rewrite forallb_app. apply andb_true_iff. split.
+    + apply forallb_set_nth; auto.
+    + destruct (o_spawn (step_thread shares c t)) as [n|] eqn:SP; cbn; auto. rewrite (S2 n eq_refl). reflexivity.
+Qed.
+
+(* a program without wait and without stringifying callback builtins: in every reachable state, under every
+   schedule, every error a thread is unwinding with or has ended with is the context's own error *)
+Theorem clean_error_identity shares s sched :
+  idclean s = true ->
+  let c := run shares sched (init s) in
+  forall t, In t (threads c) ->
+    (forall e, tmode t = Unwind e -> e = ECtx) /\ (forall e, tdone t = Some (TErr e) -> e = ECtx).
+Proof.
+  intros CL c.
+  assert (SC : state_clean c).
+  { assert (S0 : state_clean (init s)).
+    { split; cbn; [discriminate|]. unfold thread_clean. cbn. rewrite CL. reflexivity. }
+    unfold c. revert S0. generalize (init s).
+    induction sched as [|a r IH]; intros c0 S0; cbn; auto. apply IH. apply act_clean; auto. }
+  destruct SC as [_ B]. intros t I. rewrite forallb_forall in B. specialize (B t I).
+  unfold thread_clean in B. repeat (apply andb_true_iff in B; destruct B as [B ?]).
+  split; intros e X; rewrite X in *; destruct e; cbn in *; congruence.
+Qed.
+
+(* ------------------------------------------------------------------ regression: clones with a flag of their own *)
+(* go func() { for { tick() } }() ; for { } *)
+Definition prog_spawn_loop : shape := Seq (Spawn (Forever Tick)) (Forever Skip).
+(* main: Seq, Spawn ; clone: enters its loop ; cancel ; watcher ; main: polls the flag, unwinds, returns *)
+Definition sched_spawn_loop : list action :=
+  [AStep 0; AStep 0; AStep 1; AStep 1; ACancel; AFire; AStep 0; AStep 0; AStep 0; AStep 0].
+
+Definition cyc (k : nat) : cstate :=
+  mkC true true false k
+      [mkT true None [] (Unwind ECtx) (Some (TErr ECtx)) false;
+       mkT false None [FLoop Tick; FCall] Normal None false].
+
+Lemma spawn_loop_reaches : exists k, run false sched_spawn_loop (init prog_spawn_loop) = cyc k.
+Proof. eexists. vm_compute. reflexivity. Qed.
+
+Lemma cyc_step k : run false [AStep 1; AStep 1] (cyc k) = cyc (S k).
+Proof. reflexivity. Qed.
+
+Lemma cyc_forever n : forall k, run false (concat (repeat [AStep 1; AStep 1] n)) (cyc k) = cyc (n + k).
+Proof.
+  induction n as [|n IH]; intros k; [reflexivity|].
+  cbn [repeat concat]. rewrite run_app, cyc_step, IH. f_equal. lia.
+Qed.
+
+(* before b731f6b: the evaluation has returned the context's error, the flag is set, and the clone's loop goes on
+   ticking for ever *)
+Theorem noclone_spawned_loop_survives :
+  exists s sched, let c := run false sched (init s) in
+    cancelled c = true /\ flag c = true /\ main_result c = Some (TErr ECtx) /\
+    forall n, let c' := run false (concat (repeat [AStep 1; AStep 1] n)) c in
+              ticks c' = n + ticks c /\ all_done c' = false.
+Proof.
+  exists prog_spawn_loop, sched_spawn_loop. cbn zeta.
+  destruct spawn_loop_reaches as [k E]. rewrite E.
+  repeat split; try reflexivity. rewrite cyc_forever. reflexivity. rewrite cyc_forever. reflexivity.
+Qed.
+
+(* the same program and schedule on the code as it is: the clone stops *)
+Lemma spawn_loop_now_stops :
+  all_done (run true (sched_spawn_loop ++ [AStep 1; AStep 1; AStep 1; AStep 1]) (init prog_spawn_loop)) = true.
+Proof. vm_compute. reflexivity. Qed.
